@@ -5,8 +5,10 @@ package rules
 
 import (
 	"go/token"
+	"go/types"
 	"math"
 	"sort"
+	"strings"
 
 	"golang.org/x/tools/go/ssa"
 
@@ -239,4 +241,124 @@ func (x *c03ctx) k4unprotectedVia(w, f *ssa.Function) bool {
 		}
 	}
 	return false
+}
+
+// ---------------------------------------------------------------- dispatch through a selector function
+
+// selectorFacts: the call at s invokes fn through a function value returned by a selector `sel(args)` — a function
+// whose every return yields a function, a closure, a bound method or nil. fn can only have been returned on the
+// paths that return it, so the facts about the selector's parameters that hold on all of those returns hold for
+// the selector's arguments. They are handed to the caller's frame only if they read no memory, or only struct fields
+// that are not written between the caller's entry and the call at s.
+func (e *c03eng) selectorFacts(s ssa.CallInstruction, fn *ssa.Function) []c03clause {
+	cc := s.Common()
+	if cc.IsInvoke() {
+		return nil
+	}
+	sel, ok := cc.Value.(*ssa.Call)
+	if !ok || sel.Parent() != s.Parent() {
+		return nil
+	}
+	tf := sel.Call.StaticCallee()
+	if tf == nil || tf.Blocks == nil || tf.Signature.Results().Len() != 1 {
+		return nil
+	}
+	if _, isSig := tf.Signature.Results().At(0).Type().Underlying().(*types.Signature); !isSig {
+		return nil
+	}
+	if _, isClosure := sel.Call.Value.(*ssa.MakeClosure); isClosure || len(tf.FreeVars) > 0 {
+		return nil
+	}
+	var cur map[string]c03clause
+	for _, b := range tf.Blocks {
+		rt, ok := b.Instrs[len(b.Instrs)-1].(*ssa.Return)
+		if !ok {
+			continue
+		}
+		var rf *ssa.Function
+		switch y := rt.Results[0].(type) {
+		case *ssa.Function:
+			rf = y
+		case *ssa.MakeClosure:
+			rf, _ = y.Fn.(*ssa.Function)
+			if rf == nil {
+				return nil
+			}
+		case *ssa.Const:
+			if !y.IsNil() {
+				return nil
+			}
+			continue
+		default:
+			return nil // a computed function value: nothing is known
+		}
+		if rf != fn {
+			continue
+		}
+		m := map[string]c03clause{}
+		for _, cl := range e.expand(e.factsAtBlock(b), 1) {
+			okc := len(cl.atoms) > 0
+			for _, a := range cl.atoms {
+				if !a.paramRooted() || !c03memFree(a.t, a.u) {
+					okc = false
+				}
+			}
+			if okc {
+				cl.at = nil
+				m[cl.String()] = cl
+			}
+		}
+		if cur == nil {
+			cur = m
+		} else {
+			for key := range cur {
+				if _, ok := m[key]; !ok {
+					delete(cur, key)
+				}
+			}
+		}
+	}
+	if len(cur) == 0 {
+		return nil
+	}
+	args := e.siteArgs(sel, tf)
+	if args == nil {
+		return nil
+	}
+	var keys []string
+	for key := range cur {
+		keys = append(keys, key)
+	}
+	sort.Strings(keys)
+	var out []c03clause
+	for _, key := range keys {
+		var atoms []c03atom
+		okc := true
+		for _, a := range cur[key].atoms {
+			sa, ok := a.subst(args)
+			if !ok {
+				okc = false
+				break
+			}
+			for _, t := range []*c03term{sa.t, sa.u} {
+				if t == nil {
+					continue
+				}
+				flds, other := t.memFields()
+				if len(other) > 0 || !e.stableBetween(nil, s, flds) {
+					okc = false
+				}
+				t.walk(func(st *c03term) {
+					if st.op == "alloc" && strings.HasPrefix(st.name, "<inexpressible") {
+						okc = false
+					}
+				})
+			}
+			atoms = append(atoms, sa)
+		}
+		if okc {
+			out = append(out, c03clause{atoms: atoms})
+		}
+	}
+	return out
 }
